@@ -76,18 +76,13 @@ Theorem balance_ordering_against_plain_number_total : forall w b,
 Proof. intros w b H. exact (bal_all_lt_plain_total w H b). Qed.
 Print Assumptions balance_ordering_against_plain_number_total.
 
-(* a model-level remark, not a finding: the two-commodity implied-rate branch takes "the first
-   two" entries of the hash table and swaps them by the top posting's commodity; when the top
-   posting is an exact zero of a third commodity neither entry matches and the inferred costs
-   depend on the table order (`A 0 CCC / B 10 AAA / C -5 BBB`).  On the binary the order was
-   identical over all perturbed layouts tried (the harness keeps looking). *)
-Theorem two_commodity_top_zero_order_dependent :
-  exists cp ps, finalize false cp None ps <> finalize true cp None ps.
-Proof.
-  exists (fun _ => 0%Z).
-  exists [mkPost [65%Z] PReal (Some (mkAmt 0 0 false (Some [67; 67; 67]%Z))) None None false false false;
-          mkPost [66%Z] PReal (Some (mkAmt 10 0 false (Some [65; 65; 65]%Z))) None None false false false;
-          mkPost [67%Z] PReal (Some (mkAmt (-5) 0 false (Some [66; 66; 66]%Z))) None None false false false].
-  vm_compute. discriminate.
-Qed.
-Print Assumptions two_commodity_top_zero_order_dependent.
+(* the two-commodity implied-rate branch takes the two components that are not exactly zero and orients them by the
+   first posting that is IN one of the two commodities (repaired in /repo c406784 + 4e8fc49, finding F65): the former
+   witness of an order dependence - a first posting that is an exact zero of a third commodity,
+   `A 0 CCC / B 10 AAA / C -5 BBB` - now finalizes alike under both table orders *)
+Example two_commodity_top_zero_now_order_free :
+  let ps := [mkPost [65%Z] PReal (Some (mkAmt 0 0 false (Some [67; 67; 67]%Z))) None None false false false;
+             mkPost [66%Z] PReal (Some (mkAmt 10 0 false (Some [65; 65; 65]%Z))) None None false false false;
+             mkPost [67%Z] PReal (Some (mkAmt (-5) 0 false (Some [66; 66; 66]%Z))) None None false false false] in
+  finalize false (fun _ => 0%Z) None ps = finalize true (fun _ => 0%Z) None ps.
+Proof. vm_compute. reflexivity. Qed.
